@@ -10,9 +10,18 @@ CHECKS = [
  ("C02", "exploration", "model-based property testing (proptest histories vs reference model)",
   "Same engine as C01 with metadata, several markers, both only_if_presented values and both duplicate policies; read_all*, read_with, delete counts and per-blob record counts compared after every step.",
   "Trusts the reference model; read_with compares classification and bytes only (the statement gives no timestamp for it)."),
+ ("C03", "fault_enumeration", "model-based property testing with generated index-file damage + systematic truncation sweep",
+  "Histories with 1-8 restarts; before each restart generated damage (remove / truncate per layout class / written flag cleared / header zeroed / all removed / naturally stale index) is applied to index files; every query and count must equal the model after every step. An enumerated phase truncates the index of a closed blob at a stride of lengths (quick) or at every byte length (thorough) for three key lengths, eager and lazy init.",
+  "Damage is applied only to *.index files between two sessions (the domain the statement names). Sampling over histories; the truncation sweep is exhaustive only for its three fixed histories."),
  ("C04", "exploration", "model-based property testing with lifecycle/maintenance operations",
   "Histories interleave data ops with close/create/restore/force_update/offload/fsync/free and index dumps that complete at generated moments (explicit idle waits vs none, 2-5 ms vs 60 s deferred dumps, both runtime flavours); lifecycle results, all queries and filter answers compared with the model after every step.",
   "Interleaving of background dumps with client calls is whatever the scheduler produces between two steps; only step boundaries are controlled."),
+ ("C09", "exploration", "differential property testing of the index through a probe hook (in-memory vs on-disk vs sorted-list model) + enumerated shape sweep",
+  "Generated header multisets (11 key lengths, fan-out 5..454, runs around block boundaries, ties, markers) are pushed into the real index, dumped, loaded back and reopened; every lookup kind for present and absent keys is compared in all four stages with an independent sorted-list model. Enumerated sweep of key counts around powers of the fan-out per key length.",
+  "Uses the H5 IndexProbe hook (thin wrapper, no logic). Up to 3000 keys / 6000 headers per case; for >300 keys a spread subset of keys plus leaf-boundary keys is queried in the quick tier."),
+ ("C10", "exploration", "property testing of filter units and storage-level filter answers against key-set membership",
+  "Bloom/Range/Combined filters: generated configs (odd bit counts, 0-5 hashers, zero sizes) and key sets; no added key is ever denied in memory, after serialization, probed from file bytes (answers must equal in-memory answers for all probes), off-loaded, merged. HierarchicalFilters under push/pop/remove/offload/reload scripts with group sizes 2-9: every key of every present child stays reachable. Storage level: check_filters/check_filter never deny a stored key across offload/restore/delete-in-closed/restart histories.",
+  "False positives are never flagged. The file-probe test uses a BloomDataProvider over serialized bytes at a generated offset (the same interface the index implements)."),
  ("C15", "exploration", "model-based property testing of accounting values",
   "records_count*, blobs_count, next_blob_id, corrupted_blobs_count compared with the model after every step of generated histories (restore, delete into closed blobs, forced switches, restarts); disk_used compared with the directory listing at every idle point.",
   "The id printed for the active entry of records_count_detailed is not asserted (only its count). disk_used is compared only at idle points (no dump in flight)."),
